@@ -430,7 +430,7 @@ MSCALE = [[0, 0]] * 6 + [[100, -100], [70, 70], [-70, -70], [150, -150], [-150, 
 
 
 def strat_mueller(tier):
-    return st.fixed_dictionaries({'bshape': BSHAPE, 'seed': U.seeds, 'kind': st.sampled_from(['random', 'random', 'unitary', 'elements', 'special-mix']),
+    return st.fixed_dictionaries({'bshape': BSHAPE, 'seed': U.seeds, 'kind': st.sampled_from(['random', 'random', 'unitary', 'elements', 'special-mix', 'structured', 'structured']),
                                   'jdtype': st.sampled_from(JDT), 'layout': U.layouts, 'scale': st.sampled_from(MSCALE), 'pre32': st.booleans()})
 
 
@@ -448,6 +448,36 @@ def _plant_matrices(J, seed, salt, cplx_ok):
             if np.iscomplexobj(m) and not cplx_ok:
                 m = _PLANT[0]
             J[idx] = m
+    return J
+
+
+STRUCTURES = ['diagonal', 'diagonal', 'antidiagonal', 'upper', 'lower', 'identity-multiple', 'hermitian', 'symmetric', 'generic']
+
+
+def _structure(J, name):
+    """give every matrix of the batch the same zero / symmetry pattern (unrotated elements are diagonal, scalar pupils are multiples of the
+    identity, ...): whole-batch structure is what a shortcut inside the library would test for"""
+    J = np.array(J, copy=True)
+    if name == 'diagonal':
+        J[..., 0, 1] = 0
+        J[..., 1, 0] = 0
+    elif name == 'antidiagonal':
+        J[..., 0, 0] = 0
+        J[..., 1, 1] = 0
+    elif name == 'upper':
+        J[..., 1, 0] = 0
+    elif name == 'lower':
+        J[..., 0, 1] = 0
+    elif name == 'identity-multiple':
+        J[..., 0, 1] = 0
+        J[..., 1, 0] = 0
+        J[..., 1, 1] = J[..., 0, 0]
+    elif name == 'hermitian':
+        J[..., 1, 0] = np.conj(J[..., 0, 1])
+        J[..., 0, 0] = np.real(J[..., 0, 0])
+        J[..., 1, 1] = np.real(J[..., 1, 1])
+    elif name == 'symmetric':
+        J[..., 1, 0] = J[..., 0, 1]
     return J
 
 
@@ -509,6 +539,12 @@ def _check_mueller(case, ctx):
         J1, J2 = unitary(seed, B, 10), unitary(seed, B, 20)
     else:
         J1, J2 = cplx(seed, B + (2, 2), 10), cplx(seed, B + (2, 2), 20)
+    if kind == 'structured':
+        s1n, s2n = STRUCTURES[seed % len(STRUCTURES)], STRUCTURES[(seed // len(STRUCTURES)) % len(STRUCTURES)]
+        if (seed // 97) % 2:
+            s2n = 'generic'
+        J1, J2 = _structure(J1, s1n), _structure(J2, s2n)
+        ctx.label('J1:' + s1n, 'J2:' + s2n)
     J1, J2 = U.relayout(J1, lay), U.relayout(J2, lay)
     k1, k2 = J1.copy(), J2.copy()
     W1, W2 = J1.astype(np.complex128), J2.astype(np.complex128)     # the same numbers in the harness' working precision
